@@ -2,8 +2,9 @@ import os
 
 from typing import Optional
 
+from antlr4 import CommonTokenStream, FileStream
 from afmparser import AFMParser
-from afmparser import get_tree
+from afmparser.AFMLexer import AFMLexer
 
 from flamapy.core.exceptions import FlamaException
 from flamapy.core.transformations import TextToModel
@@ -31,7 +32,11 @@ class AFMReader(TextToModel):
 
     def set_parse_tree(self) -> None:
         absolute_path = os.path.abspath(self.path)
-        self.parse_tree = get_tree(absolute_path)
+        # afmparser.get_tree opens the file as ASCII; the AFM writer encodes UTF-8
+        input_stream = FileStream(absolute_path, encoding='utf-8')
+        lexer = AFMLexer(input_stream)
+        parser = AFMParser(CommonTokenStream(lexer))
+        self.parse_tree = parser.feature_model()
 
     def transform(self) -> FeatureModel:
         self.set_parse_tree()
